@@ -1,6 +1,7 @@
 package main
 
 import (
+	"encoding/binary"
 	"crypto/sha1"
 	"fmt"
 	"io/ioutil"
@@ -75,6 +76,9 @@ func dirDigest(dir string) string {
 // suiteModes (C22): every pair (mode that created the directory, mode used to reopen it)
 // over several directory states.
 func suiteModes(seed uint64, n int, work string) {
+	// the directory name contains glob metacharacters: a path is a path, not a pattern
+	work = filepath.Join(work, "shard[0-9]{a,b}*")
+	os.MkdirAll(work, 0755)
 	st := NewSt(work)
 	nutsdb.VerifObserver = st.observer
 	root := NewPRNG(seed)
@@ -127,7 +131,7 @@ func suiteModes(seed uint64, n int, work string) {
 					st.db = nil
 					if state == "torn" {
 						// a crash in the middle of an append: garbage after the last record of the newest segment
-						fs, _ := filepath.Glob(st.dir + "/*.dat")
+						fs, _ := globIn(st.dir, "*.dat")
 						if len(fs) > 0 {
 							sort.Strings(fs)
 							f := fs[len(fs)-1]
@@ -167,6 +171,69 @@ func suiteModes(seed uint64, n int, work string) {
 			}
 		}
 	}
+	// the two RAM index modes on a crashed directory: the value of the last record (the one that carries the commit
+	// mark) is torn; both modes must show the same contents
+	st.comment = true
+	for i := 0; i < n; i++ {
+		r := root.Fork()
+		seg := []int{300, 1000}[r.Intn(2)]
+		m1 := r.Intn(2)
+		emit("#H %d.tornvalue created with mode %d", i, m1)
+		st.run("reset")
+		if st.run(optLine(m1, r.Intn(2), r.Intn(2), 1, seg)) != "ok" {
+			continue
+		}
+		p.Txs = 2
+		for _, c := range genHistory(r, p, seg) {
+			if c != "reopen" && !strings.HasPrefix(c, "psscan") {
+				st.run(c)
+			}
+		}
+		hb := hx([]byte(p.Buckets[0]))
+		st.run("begin w ?")
+		st.run(fmt.Sprintf("put %s %s %s 0 1700000000", hb, hx([]byte(p.Keys[0])), hx([]byte("first-record-of-the-torn-transaction"))))
+		st.run(fmt.Sprintf("put %s %s %s 0 1700000000", hb, hx([]byte(p.Keys[1])), hx([]byte(strings.Repeat("\x03", 60)))))
+		st.run("commit")
+		st.run("close")
+		st.db = nil
+		fs, _ := globIn(st.dir, "*.dat")
+		if len(fs) == 0 {
+			emit("#SPEC no data file after a committed transaction")
+			continue
+		}
+		sort.Slice(fs, func(a, b int) bool { return len(fs[a]) < len(fs[b]) || len(fs[a]) == len(fs[b]) && fs[a] < fs[b] })
+		f := fs[len(fs)-1]
+		b, _ := ioutil.ReadFile(f)
+		end := len(b)
+		for end > 0 && b[end-1] == 0 {
+			end--
+		}
+		cut := 1 + r.Intn(55)
+		for k := end - cut; k < end && k >= 0; k++ {
+			b[k] = 0
+		}
+		ioutil.WriteFile(f, b, 0644)
+		st.mt = map[string][2]string{} // the last transaction is gone: what Get must hand back is no longer known
+		var obsM [2][]string
+		obs := obsCalls(p)
+		for m := 0; m < 2; m++ {
+			if st.run(optLine(m, r.Intn(2), r.Intn(2), 1, seg)) != "ok" {
+				emit("#SPEC open-failed in mode %d on a directory whose last record is torn inside its value (cut %d)", m, cut)
+				break
+			}
+			for _, c := range obs {
+				obsM[m] = append(obsM[m], st.run(c))
+			}
+			st.run("close")
+			st.db = nil
+		}
+		for k := range obs {
+			if len(obsM[0]) == len(obs) && len(obsM[1]) == len(obs) && obsM[0][k] != obsM[1][k] {
+				emit("#SPEC the two RAM index modes show different contents on a crashed directory (last record torn %d bytes before its end): %q mode0=%q mode1=%q", cut, obs[k], obsM[0][k], obsM[1][k])
+				break
+			}
+		}
+	}
 	st.comment = false
 	st.reset()
 	os.RemoveAll(st.dir)
@@ -175,7 +242,10 @@ func suiteModes(seed uint64, n int, work string) {
 // suiteFuzz (C20): boundary-heavy arguments on every exported method, before and
 // after Close, on finished transactions.  Nothing is compared with the model
 // (lines are comments); a panic is reported as #SPEC.
-func suiteFuzz(seed uint64, n int, work string) {
+func suiteFuzz(seed uint64, n int, work string) { suiteFuzzMode(seed, n, work, false) }
+
+// suiteFuzzMode: sparse = HintBPTSparseIdxMode with key/value calls only (the structures the sparse mode supports).
+func suiteFuzzMode(seed uint64, n int, work string, sparse bool) {
 	st := NewSt(work)
 	st.comment = true
 	nutsdb.VerifObserver = st.observer
@@ -203,12 +273,21 @@ func suiteFuzz(seed uint64, n int, work string) {
 		emit("#H %d fuzz", i)
 		out.Flush()
 		st.run("reset")
-		st.run(optLine(r.Intn(2), r.Intn(2), r.Intn(2), r.Intn(2), []int{100, 200, 1000}[r.Intn(3)]))
+		fmode := r.Intn(2)
+		cprof := "mixed"
+		if sparse {
+			fmode, cprof = 2, "kv"
+		}
+		st.run(optLine(fmode, r.Intn(2), r.Intn(2), r.Intn(2), []int{100, 200, 1000}[r.Intn(3)]))
 		// some content first, so that calls reach the interesting code
 		st.run("begin w ?")
 		{
-			g := &Gen{r: r, p: profileByName("mixed"), seg: 200, wrote: map[string]bool{}}
-			for len(g.calls) < 8 {
+			g := &Gen{r: r, p: profileByName(cprof), seg: 200, wrote: map[string]bool{}}
+			nseed := 8
+			if sparse {
+				nseed = 30
+			}
+			for len(g.calls) < nseed {
 				g.anyOp(true)
 			}
 			for _, c := range g.calls {
@@ -221,7 +300,12 @@ func suiteFuzz(seed uint64, n int, work string) {
 		st.run("rollback")
 		for j := 0; j < 60 && !st.dead; j++ {
 			var c string
-			switch r.Intn(60) {
+			sel := r.Intn(60)
+			if sparse {
+				// key/value calls, scans twice as often
+				sel = []int{0, 1, 2, 3, 4, 5, 6, 7, 7, 8, 9, 10, 11, 12, 12, 46, 46, 46, 13, 44, 42, 43, 59, 59}[r.Intn(24)]
+			}
+			switch sel {
 			case 0:
 				c = "close"
 			case 1:
@@ -253,6 +337,9 @@ func suiteFuzz(seed uint64, n int, work string) {
 				} else {
 					c = "psscan " + pick(bs) + " " + pick(ks) + " " + pick(res) + " " + pick(ints) + " " + pick(ints)
 				}
+			case 46:
+				// paging over a bucket that holds keys, small offsets, every kind of limit
+				c = "pscan " + hx([]byte(defBuckets[r.Intn(len(defBuckets))])) + " " + []string{"x", "x61", "x6b"}[r.Intn(3)] + " " + []string{"0", "1", "2", "3", "-1"}[r.Intn(5)] + " " + pick(ints)
 			case 14, 15:
 				c = []string{"rpush ", "lpush "}[r.Intn(2)] + pick(bs) + " " + pick(ks) + " " + vl()
 			case 16:
@@ -301,7 +388,7 @@ func suiteFuzz(seed uint64, n int, work string) {
 				c = "reopen-any"
 			default:
 				// a plausible call, so that states with content are reached
-				g := &Gen{r: r, p: profileByName("mixed"), seg: 200, wrote: map[string]bool{}}
+				g := &Gen{r: r, p: profileByName(cprof), seg: 200, wrote: map[string]bool{}}
 				g.p.WideInts = true
 				g.p.ReadAfterWrite = true
 				g.anyOp(r.Chance(2, 3))
@@ -320,7 +407,10 @@ func suiteFuzz(seed uint64, n int, work string) {
 			if c == "reopen-any" {
 				st.run("close")
 				st.db, st.tx = nil, nil
-				c = optLine(r.Intn(2), r.Intn(2), r.Intn(2), r.Intn(2), 200)
+				c = optLine(fmode, r.Intn(2), r.Intn(2), r.Intn(2), 200)
+				if !sparse {
+					c = optLine(r.Intn(2), r.Intn(2), r.Intn(2), r.Intn(2), 200)
+				}
 			}
 			if st.run(c) == "panic" {
 				npanic++
@@ -330,6 +420,119 @@ func suiteFuzz(seed uint64, n int, work string) {
 		st.closeQuiet()
 	}
 	emit("#STAT fuzz histories=%d panics=%d", n, npanic)
+	st.comment = false
+	st.reset()
+	os.RemoveAll(st.dir)
+}
+
+// suiteMergeCorrupt (C21: corruption is never served as data, also not through Merge): a key/value history over
+// several segments; then ONE bit of a sealed segment is flipped on disk while the database is open; Merge; every
+// Get must return an error or a value that was written for that key at some time — in the running process, and
+// after a reopen.
+func suiteMergeCorrupt(seed uint64, n int, work string) {
+	st := NewSt(work)
+	st.comment = true
+	nutsdb.VerifObserver = st.observer
+	root := NewPRNG(seed)
+	p := profileByName("kv")
+	p.Oversize, p.Abort, p.ReadOnly, p.DoneCalls, p.Reopen, p.Txs = 0, 0, 0, 0, 0, 12
+	flips, served := 0, 0
+	for i := 0; i < n; i++ {
+		r := root.Fork()
+		seg := []int{200, 300}[r.Intn(2)]
+		open := optLine(r.Intn(2), r.Intn(2), r.Intn(2), r.Intn(2), seg)
+		emit("#H %d %s mergecorrupt", i, open)
+		st.run("reset")
+		if st.run(open) != "ok" {
+			continue
+		}
+		written := map[string]map[string]bool{} // bucket \x00 key -> values ever put
+		for _, c := range genHistory(r, p, seg) {
+			if c == "reopen" || strings.HasPrefix(c, "psscan") || strings.HasPrefix(c, "putnow") {
+				continue
+			}
+			st.run(c)
+			if f := strings.Fields(st.lastRC); len(f) >= 4 && f[0] == "put" {
+				k := f[1] + " " + f[2]
+				if written[k] == nil {
+					written[k] = map[string]bool{}
+				}
+				written[k][f[3]] = true
+			}
+		}
+		fs, _ := globIn(st.dir, "*.dat")
+		if len(fs) < 2 {
+			st.closeQuiet()
+			continue
+		}
+		sort.Slice(fs, func(a, b int) bool { return len(fs[a]) < len(fs[b]) || len(fs[a]) == len(fs[b]) && fs[a] < fs[b] })
+		f := fs[r.Intn(len(fs)-1)] // not the active segment
+		b, _ := ioutil.ReadFile(f)
+		end := len(b)
+		for end > 0 && b[end-1] == 0 {
+			end--
+		}
+		if end < 50 {
+			st.closeQuiet()
+			continue
+		}
+		// flip a bit that is not in a size field (a huge size makes the real code allocate gigabytes: slow, not wrong)
+		// record starts, walking the headers (key size at 12, value size at 16, bucket size at 26)
+		var okPos []int
+		for off := 0; off+42 <= end; {
+			ks := int(binary.LittleEndian.Uint32(b[off+12:]))
+			vs := int(binary.LittleEndian.Uint32(b[off+16:]))
+			bs := int(binary.LittleEndian.Uint32(b[off+26:]))
+			sz := 42 + ks + vs + bs
+			if sz > end-off {
+				break
+			}
+			for q := 0; q < sz; q++ {
+				if (q >= 12 && q < 20) || (q >= 26 && q < 30) {
+					continue
+				}
+				okPos = append(okPos, off+q)
+			}
+			off += sz
+		}
+		if len(okPos) == 0 {
+			st.closeQuiet()
+			continue
+		}
+		pos := okPos[r.Intn(len(okPos))]
+		if fd, err := os.OpenFile(f, os.O_RDWR, 0644); err == nil {
+			fd.WriteAt([]byte{b[pos] ^ (1 << uint(r.Intn(8)))}, int64(pos))
+			fd.Close()
+		}
+		flips++
+		st.mt = map[string][2]string{}
+		check := func(when string) {
+			st.run("begin r ?")
+			for _, bk := range p.Buckets {
+				for _, k := range p.Keys {
+					res := st.run("get " + hx([]byte(bk)) + " " + hx([]byte(k)))
+					if strings.HasPrefix(res, "entry ") {
+						served++
+						ff := strings.Fields(res)
+						if len(ff) == 3 && ff[1] == hx([]byte(k)) && written[hx([]byte(bk))+" "+hx([]byte(k))][ff[2]] {
+							continue
+						}
+						emit("#SPEC C21 after a bit flip at byte %d of %s and Merge, %s: Get(%s, %s) serves %q, which was never written for this key", pos, filepath.Base(f), when, bk, k, res)
+					}
+				}
+			}
+			st.run("rollback")
+		}
+		st.run("merge")
+		check("in the running process")
+		st.run("close")
+		st.db = nil
+		if st.run(open) == "ok" {
+			check("after a reopen")
+		}
+		st.closeQuiet()
+	}
+	emit("#STAT mergecorrupt flips=%d gets_served=%d", flips, served)
 	st.comment = false
 	st.reset()
 	os.RemoveAll(st.dir)
